@@ -11,8 +11,10 @@ Definition agree_malformed (md : mode) (v : N) (t : ty) (bs : bytes) (o : obs6) 
   | Ok (y, r), O6Ok c y' => val_eqb y y' && (c + N.of_nat (length r) =? N.of_nat (length bs))
   | Err e, O6Err e' => err_tag2 e =? err_tag2 e'
   | Panic, O6Panic => true
-  | Err EEof, O6Oom => true     (* allocation failure on a declared length the input could not have encoded *)
-  | Err ELayout, O6Oom => true
+  (* an allocation failure (capacity overflow panic / allocator abort) on a declared length the input could not have
+     encoded happens BEFORE the elements are read, so the model, which reads on, may report any error there; the
+     property exempts exactly this outcome. It is never accepted where the model returns a value. *)
+  | Err _, O6Oom => true
   | _, _ => false
   end.
 
